@@ -9,7 +9,7 @@ All random choices come from one random.Random(seed)."""
 import random
 from shapes import INTS, is_sized, has_default, align, min_size, ssize
 
-UTF8_SAMPLES = [b'', b'a', 'héllo'.encode(), '日本'.encode(), '\U0001F600x'.encode(), b'abcdefgh']
+UTF8_SAMPLES = [b'', b'a', 'héllo'.encode(), '日本'.encode(), '\U0001F600x'.encode(), b'abcdefgh', 'ab€'.encode(), 'é'.encode()]
 
 
 def hexs(b):
